@@ -25,9 +25,10 @@ BITS = {
     13: "kf-c03-paren-entry-commit",
 }
 SPEC = 0                      # mask 0: the specification (RFC + documented leniencies, names as maximal tokens)
-# deviation 8 (byte-string member key, a BRIDGE rejection that does not apply inside the unconverted type of #6.<type>)
-# is not context-free; it is recognised by the bridge's own message together with the bridge model's verdict instead
-CLASSIFY_BITS = [k for k in (1, 2, 3, 4, 5, 7, 9, 10, 11, 12, 13)]
+# deviation 8 (byte-string member key) is a BRIDGE rejection where the key is written '..' (recognised below by the bridge's own
+# message together with the bridge model's verdict) and a GRAMMAR rejection where it is written h'..' / b64'..' (the bareword
+# alternative takes the h / b64); its variant grammar keeps an unconverted copy for the type inside #6.<type> / #7.<type>
+CLASSIFY_BITS = [k for k in (1, 2, 3, 4, 5, 7, 8, 9, 10, 11, 12, 13)]
 ALL = sum(1 << k for k in CLASSIFY_BITS)
 
 # bridge rejections that are about literal VALUES or duplicate definitions (properties C07 / C12), not about the grammar
@@ -273,6 +274,9 @@ class Gen:
         cut = ""
         if self.r.random() < 0.3:
             self.hit("cut"); cut = "^" + self.S()
+        if self.r.random() < 0.25:
+            # a parenthesised type as the key (type2 = "(" S type S ")"), with or without a cut
+            self.hit("key-paren"); return "(" + self.S() + self.type(d - 1) + self.S() + ")" + self.S() + cut + "=>"
         return self.type1(d - 1) + self.S() + cut + "=>"
 
     def grpent(self, d):
@@ -403,7 +407,7 @@ PROBES = [
     "a = 0b1e2", "a = [0b1e2]", "a = 042", "a = [042]", "a = \"\\u{41}\"", "a = \"\\u00e9\"", "a = \"x\\qy\"", "a = \"\\ud800\"", "a = \"\\u{110000}\"",
     "a = \"\\u{0041}\"", "a = \"\\uD83D\\uDE00\"", "a = \"tab\there\"", "a = \"nl\nhere\"", "a = \"\x7f\"", ";c\tx\na = int", ";c\rb\na = int",
     "a<t> = [t]", "a <t> = [t]", "a< t , u > = [t, u]", "a = b<c>", "a = b <c>", "a = b< c , d >", "a = ~ b<c>", "a = & g<c>", "a = ~b <c>",
-    "a = {* tstr => any}", "a = {+ a ^ => int}", "a = {a ^ => int}", "a = {a^=>int}", "a = [1*2 int, 3* tstr, *4 x, ? y]", "a = &(x: 1, y: 2)",
+    "a = {* tstr => any}", "a = {(tstr / int) ^ => bool}", "a = {( tstr )^=> int}", "a = [(1..3) ^ => int]", "g = ((a) ^ => b, (c) => d)", "a = {+ a ^ => int}", "a = {a ^ => int}", "a = {a^=>int}", "a = [1*2 int, 3* tstr, *4 x, ? y]", "a = &(x: 1, y: 2)",
     "a = ~b", "a = & b", "a //= (x: 1)", "a /= int", "g = (a, b)", "a = [a: int]", "a = {\"a\": int}", "a = {1: int}", "a = {-1: int, 1.5: x}",
     "a = int / tstr / [x // y]", "a = 1...3", "a = (int)", "a = ( int / tstr )", "a = [(int, tstr)]", "a = [ * ( int, tstr ) ]", "a = [2*3(int)]",
     "a = [2* 3 int]", "a = [a b]", "a = [a,, b]", "a = [,a]", "a = [a,]", "a = [a , ]", "a = []", "a = {}", "a = [//]", "a = [a // ]", "a = ()",
@@ -417,6 +421,7 @@ PROBES = [
     "a = [((uint) / x.y)]", "a = [((a) .size 3)]", "a = [((a) .size 3) .lt 4]", "a = [(((a) / b))]", "a = [((a) / b) => c]",
     "a = [((a) / b) .size 3 => c]", "g //= ((uint) / x)", "g = ? ((a) / b)", "a = [(a) .size 3 => b]", "a = [((a))]", "a = [((a)) / b]",
     "a = #6.<{'k': 1}>(x)", "a = #7.<'a\\qb'>", "a = #6.<\"\\ud800\">(tstr)", "a = #6.<[h'zz']>(x)", "a = #6.<99999999999999999999999>(x)",
+    "g //= h'00' : 10", "g = + h'00' : 10", "$$gs= +h'00' :0X0a", "a = [h'00' : 10]", "a = {b64'AQ==': 1}", "g = ? 'k': 1", "a = #6.<{h'00': 1}>(x)",
     "a = {$a: 1}", "a = {$a<b>: 1}", "a = [a: x / h\"ab\" => c]", "a = [a: x / h'00' => c]", "a = [a: x / H'00' => c]", "a = [*0]", "a = 0b1 = 2",
     "a = [1p3]", "a = [0x1p3]", "a = [0x1.8p3]", "a = -0x1p-2 b = 1", "g = (#6.1 : 1)", "a = b .abnfb\nx..y", "a = b .hexlc x..y",
 ]
